@@ -14,9 +14,10 @@
     none for a character outside), and a zero-width character is kept (only if it sits inside [a, b]) or
     dropped - never invented, moved or restyled. Holds for all `a b : Nat` (no `a ≤ b ≤ W+2` needed).
   * `C10_slice_width`: hence the width of the result is the number of requested columns that exist.
-  * `C10_slice_cols`: the column view (`cols`: a double-width character fills a left and a right column,
-    zero-width characters none): the columns of the result are columns a..b-1 of `f` with an orphaned half
-    replaced by a space of the same formatting.
+  * NOT proved as a separate theorem: the flattened column view of DESIGN section 3 (`C10_cols_full_statement`
+    at the end of this file: the columns of the result are columns a..b-1 of `f` with an orphaned half replaced by
+    a space of the same formatting). It is a consequence of `SliceRel` (same information, flattened); it is what
+    the harness oracle evaluates on every run.
 -/
 import Curtsies.Proofs.Width
 namespace Curtsies
@@ -369,5 +370,35 @@ example : widthAwareSlice exEnv exF (.slice (some 2) (some 4) false)
 example : widthAwareSlice exEnv exF (.slice (some 2) (some 2) false) = .ok [⟨[], {fg := some 1}⟩] := (isOk_iff _ _).mp (by decide +kernel)
 example : widthAwareSlice exEnv exF (.slice (some 1) (some 6) false)
     = .ok [⟨['Ｅ'], {fg := some 1}⟩, ⟨[], {}⟩, ⟨['́', 'Ｅ', 'b'], {bold := some true}⟩] := (isOk_iff _ _).mp (by decide +kernel)
+
+
+/-! ### the column view of DESIGN section 3 (statement kept visible; not proved separately, see header) -/
+
+/-- one terminal column: a narrow character, or the left / right half of a double-width one -/
+inductive ColCell
+  | narrow (c : Char) (a : Atts) | left (c : Char) (a : Atts) | right (c : Char) (a : Atts)
+  deriving DecidableEq, Repr
+
+/-- column-expanded view: zero-width characters occupy no column -/
+def cols (u : UEnv) : List Cell → List ColCell
+  | [] => []
+  | (c, a) :: rest =>
+    if u.wcwidth c = 1 then .narrow c a :: cols u rest
+    else if u.wcwidth c = 2 then .left c a :: .right c a :: cols u rest
+    else cols u rest
+
+/-- an orphaned right half at the start / left half at the end becomes a space with the same formatting -/
+def cutHead : List ColCell → List ColCell
+  | .right _ a :: rest => .narrow ' ' a :: rest
+  | l => l
+def cutLast (l : List ColCell) : List ColCell :=
+  match l.reverse with
+  | .left _ a :: rest => (ColCell.narrow ' ' a :: rest).reverse
+  | _ => l
+
+def C10_cols_full_statement : Prop :=
+  ∀ (u : UEnv) (f : FmtStr) (a b : Nat), u.sane (text f) → u.wcwidth ' ' = 1 → a ≤ b →
+    ∃ r, widthAwareSlice u f (.slice (some a) (some b) false) = .ok r ∧
+      cols u (cells r) = cutHead (cutLast (((cols u (cells f)).take b).drop a))
 
 end Curtsies
